@@ -1153,12 +1153,20 @@ def judge_rows(case, obs, ref_fn, out):
         want = finite_or_none(ref_fn(row))
         got = obs["out"][k] if k < len(obs["out"]) else "dropped"
         gotf = obs["float_out"][k] if obs.get("float_out") and k < len(obs["float_out"]) else "dropped"
+        # the exact run is the reference run; the float run is supporting evidence.  Rounding can turn a divisor
+        # that is exactly zero into a tiny non-zero one (5/3 + 5 - 5 - 5/3) and vice versa, so a None-vs-value
+        # difference of the float run is not judged when the exact run of the same case is right at this timestamp
+        exact_right = (got is None and want is None) or (
+            isinstance(got, list) and len(got) == 2 and got[0] not in ("dup", "extra", "float") and want is not None
+            and F(got[0], got[1]) == want)
         for tag, g in (("exact", got), ("float", gotf)):
             if g == "dropped":
                 out.append({"what": f"no-sample: nothing emitted for timestamp {k} ({tag} run); expected {'None' if want is None else want}", "finding": None})
                 continue
             if isinstance(g, list) and g and g[0] in ("dup", "extra"):
                 out.append({"what": f"sample-count: {g} at timestamp {k} ({tag} run)", "finding": None})
+                continue
+            if tag == "float" and exact_right and (want is None) != (g is None):
                 continue
             if want is None:
                 if g is not None:
